@@ -23,6 +23,17 @@ def match_known(kf, ev):
     return True
 
 
+def signature(ev):
+    """short description of a rejected event, for the summary table printed with violations"""
+    if ev is None:
+        return '?'
+    keys = ['op', 'fn', 'outcome', 'profile', 'r', 'dflt', 'coord', 'n', 'o', 'res', 'target', 'branch', 'kind']
+    parts = ['%s=%s' % (k, ev[k]) for k in keys if k in ev and not isinstance(ev[k], (list, dict))]
+    if 'msg' in ev and ev['msg']:
+        parts.append('msg=%s' % str(ev['msg'])[:50])
+    return ' '.join(parts)
+
+
 def write_replay_inputs(ctx, replay, name='mc_replay.ndjson'):
     p = os.path.join(ctx['work'], name)
     with open(p, 'w') as f:
@@ -159,7 +170,23 @@ def plan_c12(ctx):
     return r
 
 
+def plan_c14(ctx):
+    # two builds of the harness (and of /repo): overflow-checked dev profile and release profile
+    rel = ctx['build_harness'](True)
+    r = standard(ctx, [dict(module='MC_Total')], gen_kv={'release': rel},
+                 rule='one child process per call of the plan enumerated by MC_Total (13 public functions x 50 ID class representatives x 15 '
+                      'resolution classes x 9 coordinate classes, fan-out <= 4^8) x concrete fills, in an overflow-checked and a release '
+                      'build, under ulimit -v 1.5 GB and an 8 s deadline. distinct_nontrivial = calls whose demanded outcome is err or either',
+                 assumptions=['negative edge-subdivision counts for cell_to_boundary are outside the property (C11 states n >= 1)',
+                              'compact() of malformed IDs: only crash-freedom and "outputs are inputs or canonical" are demanded'])
+    oc = r['summary'].get('outcomes', {})
+    r['distinct_nontrivial'] = sum(v for k, v in oc.items() if not k.endswith(':ok'))
+    r['level'] = 'model_checking'
+    return r
+
+
 PLANS = {
+    'C14': plan_c14,
     'C17': plan_c17,
     'C12': plan_c12,
     'C08': plan_c08,
